@@ -2788,12 +2788,7 @@ class XonshParser(Parser):
             and (format := self.fstring_full_format_spec(),)
             and (self.expect("}"))
         ):
-            return ast.FormattedValue(
-                value=a,
-                conversion=conver if conver else b"r"[0] if debug_expr else -1,
-                format_spec=format,
-                **self.span(_lnum, _col),
-            )
+            return self.fstring_field(a, debug_expr, conver, format, **self.span(_lnum, _col))
         self._reset(mark)
         if self.call_invalid_rules and (self.invalid_replacement_field()):
             return None
